@@ -237,6 +237,13 @@ def run(ctx):
     drv = []
     for fmt, nums, info in named_cases():
         run_seq(ctx, fmt, [x & 0xFFFF for x in nums], dict(info, exact_clause=info.get("exact_clause", False)), drv)
+    if ctx.thorough or getattr(ctx, "escalated", False):
+        # LONG full-resolution passes (4400 records, 70 MB of records): one record removed early, nothing to remove later on
+        for fmt_ in ("klmLac", "podLac"):
+            big = list(range(1, 4401))
+            big[100] += 5000
+            big[200] += 300
+            run_seq(ctx, fmt_, [x & 0xFFFF for x in big], {"kind": "corrupt", "n": 4400, "n0": 1, "corrupted": [100], "exact_clause": True}, drv)
     nrand = ctx.n(160, 700)
     for i in range(nrand):
         fmt = ("klmGac", "podGac", "klmLac", "podLac")[i % 4]
